@@ -668,6 +668,16 @@ pub fn sparse_regimes(rng: &mut Rng, thorough: bool) -> Vec<(String, usize, Runs
     let mut runs: Runs = vec![(1 << 25, 540_000)];
     runs.extend(random_positions(rng, n, 30));
     out.push(("E5.denseregion".to_string(), n, normalize(n, runs)));
+    // E6: one bucket holding far more values than any search threshold (33 .. 100 values two apart, so that every member is a
+    // run edge and is queried), in an otherwise nearly empty universe (wide low parts); a second such bucket at the very end.
+    for (k, gap) in [(33usize, 2usize), (40, 2), (48, 3), (57, 2), (100, 5)] {
+        let n = 1usize << 24;
+        let base = (5usize << 18) + 1000;
+        let mut runs: Runs = (0..k).map(|j| (base + gap * j, 1)).collect();
+        runs.extend([(3, 1), (n - 1, 1)]);
+        if k == 48 { runs.extend((0..35).map(|j| (n - 200 + 2 * j, 1))); }
+        out.push((format!("E6.bigbucket{}", k), n, normalize(n, runs)));
+    }
     // E4: empty and full.
     for n in [0usize, 1, 64, 5000, if thorough { 1 << 24 } else { 1 << 20 }] {
         out.push((format!("E4.empty{}", n), n, Vec::new()));
